@@ -356,6 +356,7 @@ func C12(r *drv.Run) {
 	})
 	c12Isolation(r)
 	c12Long(r)
+	c12Bound(r)
 	if r.NViolations() == 0 {
 		if r.Counter("isolation_programs_run") == 0 {
 			r.Inconclusive("coverage floor: no two-transform replacement was run")
